@@ -821,6 +821,30 @@ class Item:
         self.rewrite(bo + h.start(), bs, ";/*@pre*/\n  loop\n  /*@loop*/\n  {\n    let Some(%s) = vx_mc.next() else { break; };/*@body*/\n    let vx_e = " % p, "R3-map-collect")
         self.rewrite(be, semi + 1, ";\n    %s.push(vx_e);\n  }" % var, "R3-map-collect")
 
+    def r3_map_collect_expr(self, fn, k):
+        """tail expression `RECV.map(|P| BODY).collect()` (RECV an iterator value; BODY without `return` / `?`)  ==>
+        { let mut vx_mc = RECV; let mut vx_out = Vec::new(); loop { let Some(P) = vx_mc.next() else { break; };
+          let vx_e = BODY; vx_out.push(vx_e); } vx_out }        (the definition of map + collect::<Vec<_>>(); RECV and BODY stay in place)"""
+        k0, _, bo, end, _ = self.fn_span(fn)
+        hits = list(re.finditer(r"\.\s*map\s*\(", self.m[bo:end]))
+        if len(hits) < k:
+            raise Undecided("LOST-ANCHOR: R3 map-collect-expr #%d in fn %s of %s" % (k, fn, self.where()))
+        h = hits[k - 1]
+        par = bo + h.end() - 1
+        p, bs, be, close = self._closure_after(par)
+        if re.search(r"\breturn\b|\?", self.m[bs:be]):
+            raise Undecided("R3 map-collect-expr: the closure body leaves early (return / ?) at %s:%d" % (self.relpath, self.line_of(bs)))
+        mc = re.match(r"\s*\.\s*collect\s*\(\s*\)", self.m[close + 1:])
+        if not mc or self.m[close + 1 + mc.end():end - 1].strip():
+            raise Undecided("R3 map-collect-expr: `.collect()` as the end of the tail expression expected at %s:%d" % (self.relpath, self.line_of(close)))
+        cend = close + 1 + mc.end()
+        s0 = self._stmt_start(bo + h.start())
+        while s0 < bo + h.start() and self.m[s0].isspace():
+            s0 += 1
+        self.rewrite(s0, s0, "{ let mut vx_mc = ", "R3-map-collect-expr")
+        self.rewrite(bo + h.start(), bs, ";\n  let mut vx_out = Vec::new();/*@pre*/\n  loop\n  /*@loop*/\n  {\n    let Some(%s) = vx_mc.next() else { break; };/*@body*/\n    let vx_e = " % p, "R3-map-collect-expr")
+        self.rewrite(be, cend, ";\n    vx_out.push(vx_e);/*@tail*/\n  }\n  vx_out }", "R3-map-collect-expr")
+
     def r3_filter_map_collect_expr(self, fn, k):
         """tail expression `RECV.filter_map(|P| BODY).collect()` (RECV an iterator value; BODY without `return` / `?`)  ==>
         { let mut vx_fm = RECV; let mut vx_out = Vec::new(); loop { let Some(P) = vx_fm.next() else { break; };
